@@ -1,7 +1,7 @@
 (* C05 — Decoders accept only well-formed COSE of their own type.
    Statements only (copied from coq/theories by bin/mkprops); each proof is `exact <lemma>`. *)
 From Coq Require Import Ascii String ZArith List Bool Permutation.
-From GoCose Require Import Bytes Cbor CborProofs Res GoVal Obs Ecdsa EcdsaProofs Fx Headers Enc Dec Msg HashEnv Key SigVer Run TbsProofs FlowProofs DecProofs KeyProofs HdrProofs EncProofs EncCanon NoPanic Effects MoreProofs KeyCbor EncDec HdrRoundTrip WireLeg.
+From GoCose Require Import Bytes Cbor CborProofs Res GoVal Obs Ecdsa EcdsaProofs Fx Headers Enc Dec Msg HashEnv Key SigVer Run TbsProofs FlowProofs DecProofs KeyProofs HdrProofs EncProofs EncCanon NoPanic Effects MoreProofs KeyCbor EncDec HdrRoundTrip WireLeg RulesTie.
 From GoCose.Gen Require Import Generated.
 Import ListNotations.
 Open Scope Z_scope.
@@ -115,6 +115,13 @@ Theorem C05_validated_rules :
   (n = c_HeaderLabelCounterSignature0 \/ n = c_HeaderLabelCounterSignature0V2 -> prot = false /\ can_bstr v = true).
 Proof. exact validated_rules. Qed.
 Print Assumptions C05_validated_rules.
+
+(* the section 3.1 rules checked are those of the switch in /repo's validateHeaderParameters (translated table) *)
+Theorem C05_translated_rules_agree :
+  forall prot h label value,
+  check_param_tbl tbl_header_rules prot h label value = check_param prot h label value.
+Proof. exact translated_rules_agree. Qed.
+Print Assumptions C05_translated_rules_agree.
 
 (* no duplicate map key at any nesting depth: every map inside a decoded value (header values, nested containers) has pairwise distinct keys under Go equality *)
 Theorem C05_dec_nodup :
